@@ -95,6 +95,10 @@ def c15_c14(which):
             if int(np.asarray(s)[L - 1]) != 3 or int(np.asarray(s).sum()) != 3: R.fail("c15.lead_time", "order does not arrive as the youngest stock after exactly L steps", dict(lead_time=L), np.asarray(s))
     return R
 
+def nmax(a, b):
+    """max that PROPAGATES NaN (Python's max silently drops it: max(0, nan) == 0)"""
+    a, b = float(a), float(b)
+    return float("nan") if (a != a or b != b) else max(a, b)
 def c13_c16(which):
     R = Report(f"{which}_runtime", which.upper(), "probability tables of small and edge parameterisations of the four shipped problems vs scipy (gamma, nbinom, multinomial, poisson/binomial brute force); distinct = parameterisations")
     tol = 1e-4
@@ -104,7 +108,7 @@ def c13_c16(which):
         al = 1 / cov ** 2; scale = mean * cov ** 2; F = lambda x: st.gamma.cdf(x, al, scale=scale)
         exp = np.array([F(0.5)] + [F(d + .5) - F(d - .5) for d in range(1, D)] + [1 - F(D - .5)])
         if which == "c13" and (not np.isfinite(pr).all() or pr.min() < 0 or np.abs(pr.sum(-1) - 1).max() > tol): R.fail("c13.de_moor", "not a distribution", inp, dict(min=float(pr.min()), sum_dev=float(np.abs(pr.sum(-1) - 1).max())))
-        if which == "c16" and np.abs(pr - exp[None, None, :]).max() > 1e-6: R.fail("c16.de_moor_discretised_gamma", "differs from the half-integer discretised, censored gamma", inp, float(np.abs(pr - exp[None, None, :]).max()))
+        if which == "c16" and not (np.abs(pr - exp[None, None, :]).max() <= 1e-6): R.fail("c16.de_moor_discretised_gamma", "differs from the half-integer discretised, censored gamma", inp, float(np.abs(pr - exp[None, None, :]).max()))
     # Mirjalili
     for m, Q, D, c0, c1 in [(1, 3, 4, (), ()), (2, 3, 4, (0.7,), (0.2,)), (3, 2, 3, (1.0, 0.5), (-0.3, 0.4)), (2, 4, 2, (-2.0,), (1.5,))]:
         kw = dict(max_demand=D, max_useful_life=m, max_order_quantity=Q, useful_life_at_arrival_distribution_c_0=c0, useful_life_at_arrival_distribution_c_1=c1); p = MJ(**kw); pr = ptable(p); inp = dict(problem="Mirjalili", params=kw); R.case(("mj", m, Q, D), inp)
@@ -117,12 +121,12 @@ def c13_c16(which):
                 for a_ in range(len(aa)):
                     q = aa[a_, 0]; la = np.array([0.0] + [c0[i] + c1[i] * q for i in range(m - 1)]); pa = np.exp(la) / np.exp(la).sum(); pso = pa[::-1]
                     for e in range(len(ee)):
-                        d, rec = ee[e, 0], ee[e, 1:]; ex = dem[d] * (st.multinomial.pmf(rec, q, pso) if rec.sum() == q else 0.0); worst = max(worst, abs(ex - pr[s, a_, e]))
-            if worst > 1e-6: R.fail("c16.mirjalili_negbin_times_multinomial", "differs from censored negative binomial x multinomial split", inp, worst)
+                        d, rec = ee[e, 0], ee[e, 1:]; ex = dem[d] * (st.multinomial.pmf(rec, q, pso) if rec.sum() == q else 0.0); worst = nmax(worst, abs(ex - pr[s, a_, e]))
+            if not (worst <= 1e-6): R.fail("c16.mirjalili_negbin_times_multinomial", "differs from censored negative binomial x multinomial split", inp, worst)
     # Forest
     for pf in [0.0, 0.1, 1.0]:
         p = Forest(S=4, p=pf); pr = ptable(p); R.case(("fo", pf), dict(problem="Forest", p=pf))
-        if which == "c13" and (pr.min() < 0 or np.abs(pr.sum(-1) - 1).max() > tol): R.fail("c13.forest", "not a distribution", dict(p=pf))
+        if which == "c13" and (not np.isfinite(pr).all() or pr.min() < 0 or np.abs(pr.sum(-1) - 1).max() > tol): R.fail("c13.forest", "not a distribution", dict(p=pf))
         if which == "c16" and not (np.allclose(pr[:, 0, 1], pf) and np.allclose(pr[:, 1, 1], 0.0) and np.allclose(pr[:, 0, 0], 1 - pf) and np.allclose(pr[:, 1, 0], 1.0)): R.fail("c16.forest_fire_probability", "fire probability is not p when waiting / 0 when cutting", dict(p=pf), pr[0].tolist())
     # Hendrix: sum-to-one over a parameter grid (C13) and joint distribution vs brute force (C16)
     def hx_ref(la, lb, sub, sa, sb, K=80):
@@ -144,15 +148,15 @@ def c13_c16(which):
         inp = dict(problem="Hendrix", params=kw, max_demand=md, poisson_tail_beyond_truncation=tail); R.case(("hx", la, lb, sub, qa, qb, m), inp)
         worst = 0; worst_sum = 0; mn = 0
         for s in rng.choice(len(ss), size=min(12, len(ss)), replace=False):
-            pr = np.asarray(f(ss[s], p.action_space[0], p.random_event_space)); worst_sum = max(worst_sum, abs(pr.sum() - 1)); mn = min(mn, pr.min())
+            pr = np.asarray(f(ss[s], p.action_space[0], p.random_event_space)); worst_sum = nmax(worst_sum, abs(pr.sum() - 1)); mn = -nmax(-mn, -pr.min())
             if which == "c16":
                 ref = hx_ref(la, lb, sub, ss[s, :m].sum(), ss[s, m:].sum())
-                for e in range(len(ee)): worst = max(worst, abs(pr[e] - ref.get((ee[e, 0], ee[e, 1]), 0.0)))
-        if which == "c13" and (worst_sum > tol or mn < 0): R.fail("c13.hendrix_sum_to_one", "event probabilities do not sum to one within 1e-4", inp, dict(max_sum_deviation=float(worst_sum), min=float(mn)), "|sum - 1| <= 1e-4")
+                for e in range(len(ee)): worst = nmax(worst, abs(pr[e] - ref.get((ee[e, 0], ee[e, 1]), 0.0)))
+        if which == "c13" and (not (worst_sum <= tol) or not (mn >= 0)): R.fail("c13.hendrix_sum_to_one", "event probabilities are not finite, non-negative and summing to one within 1e-4", inp, dict(max_sum_deviation=float(worst_sum), min=float(mn)), "|sum - 1| <= 1e-4")
         if which == "c16":
-            if worst > max(1e-6, 3 * tail): R.fail("c16.hendrix_joint_distribution", "differs from the brute-force joint distribution by more than the truncated tail mass", inp, worst, max(1e-6, 3 * tail))
+            if not (worst <= max(1e-6, 3 * tail)): R.fail("c16.hendrix_joint_distribution", "differs from the brute-force joint distribution by more than the truncated tail mass", inp, worst, max(1e-6, 3 * tail))
             iv = float(p.initial_value(ss[-1])); pr = np.asarray(f(ss[-1], p.action_space[0], p.random_event_space)); ex = (pr * (ee @ np.array([p.sales_price_a, p.sales_price_b]))).sum()
-            if abs(iv - ex) > 1e-6: R.fail("c16.hendrix_initial_value", "initial value != expected one-step sales revenue", inp, iv, float(ex))
+            if not (abs(iv - ex) <= 1e-6): R.fail("c16.hendrix_initial_value", "initial value != expected one-step sales revenue", inp, iv, float(ex))
     if which == "c16":
         for nm, p in (("forest", Forest(S=3)), ("de_moor", DM(max_demand=3, max_useful_life=1, max_order_quantity=2)), ("mirjalili", MJ(max_demand=2, max_useful_life=1, max_order_quantity=1, useful_life_at_arrival_distribution_c_0=(), useful_life_at_arrival_distribution_c_1=()))):
             R.case(("iv", nm), None)
